@@ -16,6 +16,8 @@ BASES = {
     "cubicB": lambda: (MD.Cubic1(0.4, 0.08, 0.1, 100.0, 12.0), "sym", "brk"),
     # T0 = 75 < 0.8*Tn for Tn = 100: the symmetric phase exists with a margin over the range the solver needs (Tc = 106.07, T1 = 113.4)
     "cubicD": lambda: (MD.Cubic1(0.2, 0.1, 0.1, 75.0, 12.0), "sym", "brk"),
+    # cubicD plus a massive field that sits at 0 in both phases (last field): a permutation can put the field that does NOT change first
+    "cubicS": lambda: (MD.Spectator(MD.Cubic1(0.2, 0.1, 0.1, 75.0, 12.0), 400.0, 0.3, 0.5, 0.4), "sym", "brk"),
     "cubicC": lambda: (MD.Cubic1(0.2, 0.05, 0.1, 90.0, 30.0), "sym", "brk"),
 }
 
